@@ -4,6 +4,10 @@ package cache
 
 import (
 	"errors"
+	"time"
+
+	"google.golang.org/protobuf/proto"
+	"github.com/openconfig/gnmi/latency"
 
 	"github.com/openconfig/gnmi/ctree"
 	"github.com/openconfig/gnmi/metadata"
@@ -216,4 +220,68 @@ func VerifC14_Remove(h *zz.H) {
 		h.Assert(len(n.Delete) == 1 && len(full) == 2 && full[0] == vDev && full[1] == "*", "C14: Remove announces a whole-target delete")
 	}
 	h.Assert(c.HasTarget(vDevB), "C14: other targets stay known")
+}
+
+
+// VerifC14_LatencyFrame: isolation of the per-target latency statistics (differential: two caches
+// with latency windows configured see the same history for target B; only the first also gets a
+// synced target A with updates of symbolic latency). After a window has elapsed and the metadata
+// refresh has run in both, everything stored or reported for B is the same in both caches.
+func VerifC14_LatencyFrame(h *zz.H) {
+	opt, err := WithLatencyWindows([]string{"2s"}, 2*time.Second)
+	h.Assume(err == nil)
+	base := int64(1000) * int64(time.Second)
+	lnow := base
+	latency.Now = func() time.Time { return time.Unix(0, lnow) }
+	Now = func() time.Time { return time.Unix(0, lnow) }
+	c1, c2 := New([]string{vDev, vDevB}, opt), New([]string{vDev, vDevB}, opt)
+	lnow = base + int64(time.Second)
+	// target B: the same in both caches (synced or not, with or without an update)
+	bSync := h.Range("b_synced", 0, 1) == 1
+	bUpd := h.Range("b_update", 0, 1) == 1
+	bts := h.Int64("b_ts")
+	h.Assume(bts > 0 && bts < base)
+	for _, c := range []*Cache{c1, c2} {
+		if bSync {
+			c.Sync(vDevB)
+		}
+		if bUpd {
+			c.GnmiUpdate(vUpdate(vDevB, []string{"x"}, 0, bts, vIntVal(1)))
+		}
+	}
+	// target A, first cache only: synced, then updates whose latency is the solver's choice
+	c1.Sync(vDev)
+	na := h.Range("a_updates", 1, h.Param("NA", 2))
+	for i := 0; i < na; i++ {
+		ats := h.Int64("a_ts")
+		h.Assume(ats > 0 && ats < base)
+		c1.GnmiUpdate(vUpdate(vDev, []string{"y"}, 0, ats+int64(i), vIntVal(int64(i))))
+	}
+	switch h.Range("a_then", 0, 2) {
+	case 1:
+		c1.Reset(vDevB) // a reset of B itself must not pick up A's statistics either
+		c2.Reset(vDevB)
+	case 2:
+		c1.Reset(vDev)
+	}
+	lnow = base + 3*int64(time.Second)
+	c1.UpdateMetadata()
+	c2.UpdateMetadata()
+	a, b := c14Take(c1, vDevB), c14Take(c2, vDevB)
+	h.Assert(len(a.ints) == len(b.ints), "C14: an update addressed to one target never changes which metadata is reported for another")
+	for k, v := range b.ints {
+		w, ok := a.ints[k]
+		h.Assert(ok && w == v, "C14: an update addressed to one target never changes the metadata (latency statistics included) reported for another")
+	}
+	h.Assert(len(a.leaves) == len(b.leaves), "C14: an update addressed to one target never changes the leaves stored for another")
+	for _, x := range a.leaves {
+		found := false
+		for _, y := range b.leaves {
+			if vPathEq(x.p, y.p) {
+				found = true
+				h.Assert(proto.Equal(x.n.Update[0].Val, y.n.Update[0].Val), "C14: an update addressed to one target never changes what is stored for another")
+			}
+		}
+		h.Assert(found, "C14: an update addressed to one target never adds leaves to another")
+	}
 }
